@@ -28,7 +28,8 @@ def main():
                                 stderr=subprocess.PIPE, text=True, cwd=VERIF)
             viol = [l for l in pr.stdout.splitlines() if l.startswith("VIOLATION")]
             detail = [l.strip() for l in pr.stderr.splitlines() if l.startswith("   ")][:6]
-            out[p] = {"rc": pr.returncode, "violations": len(viol), "detail": detail, "wall_s": round(time.time() - t0, 1)}
+            out[p] = {"rc": pr.returncode, "violations": len(viol), "detail": detail, "wall_s": round(time.time() - t0, 1),
+                      "tier": os.environ.get("VERIF_TIER", "quick")}
             print(sid, p, "rc=%d" % pr.returncode, "violations=%d" % len(viol), detail[:2], flush=True)
     finally:
         subprocess.run(["git", "-C", "/repo", "checkout", "--", "."])
